@@ -115,6 +115,15 @@ def run(tier, selftest=False, only=None):
                 for mode in MODES:
                     for sd in range(nseeds):
                         jobs.append((kind, space, mode, n, st, seed * 1000 + sd))
+    # sparse species over many cells: the correction loop of the redistribution keeps hitting cells whose draw was 0
+    sparse_seeds = 40 if tier == "quick" else 400
+    for n in (5, 6, 8):
+        for _ in range(2):
+            st = [rng.choice([0.25, 0.5, 0.75, 0.0, 0.5]) for _ in range(n)] + [rng.choice([0.0, 0.25, 1.5, 0.75]) for _ in range(n)]
+            for kind in ("tauleap", "gillespie"):
+                for space in ("grid", "graph"):
+                    for sd in range(sparse_seeds):
+                        jobs.append((kind, space, "redist" if sd % 2 else "auto", n, st, seed * 7000 + sd))
     build.build_engine("plain")
     ctx = mp.get_context("fork")
     with ctx.Pool(util.NCPU, initializer=_init) as pool:
